@@ -85,7 +85,15 @@ def run_short(params, ch):
     if raised and o['rx_at_fault'] is not None:
         # once a transport error has been raised to the caller the session is broken (clean-up handlers may still write);
         # the in-order / no-gap clause is judged on what the device had received up to that moment
+        after = o['rx'][o['rx_at_fault']:]
         o['rx'] = o['rx'][:o['rx_at_fault']]
+        # ... and a clean-up handler closes streams, nothing else: a partly written message must not be re-sent or continued behind the caller's back
+        k = 0
+        while k + 24 <= len(after) and after[k:k + 4] == b'CLSE' and after[k + 12:k + 16] == b'\0\0\0\0':
+            k += 24
+        if k != len(after):
+            viol.append({'msg': 'after the transport error at byte %d the library wrote %d more bytes that are not stream-closing messages (%r...): a partly written message was re-sent or continued '
+                                'although the failure had to be reported; results %r' % (o['rx_at_fault'], len(after) - k, bytes(after[k:k + 8]), [r[:2] if r[0] != 'ok' else 'ok' for r in o['res']])})
     if not ref['rx'].startswith(o['rx']):
         n = next((i for i, (a, b) in enumerate(zip(o['rx'], ref['rx'])) if a != b), min(len(o['rx']), len(ref['rx'])))
         viol.append({'msg': 'the bytes the device received are not a prefix of the stream of the unlimited run: first difference at offset %d of %d (a gap or a repetition inside a message), '
